@@ -4,6 +4,7 @@ CONSTANTS
   MaxConns <- MC12
   MayFail = TRUE
   CancelTail = FALSE
+  AwaitCancelled = FALSE
   ValidateUpFront = FALSE
 VIEW view
 INVARIANT QuiescentAfterRaise
